@@ -159,13 +159,13 @@ PROPS.update({
     },
     "C11": {
         "level": "proof",
-        "lean_modules": ["ApdVerif.Props.C11", "ApdVerif.Props.C11Settle", "ApdVerif.Props.C11Sqrt", "ApdVerif.Props.C11SqrtExact", "ApdVerif.Props.C11Cbrt", "ApdVerif.Props.C11CbrtObs"],
+        "lean_modules": ["ApdVerif.Props.C11", "ApdVerif.Props.C11Settle", "ApdVerif.Props.C11Sqrt", "ApdVerif.Props.C11SqrtExact", "ApdVerif.Props.C11Cbrt", "ApdVerif.Props.C11CbrtObs", "ApdVerif.Props.C11CbrtConv"],
         "streams": [{"stream": "roots", "n": {"quick": 20000, "thorough": 400000}},
                     # the same oracles judge every aliased outcome (d == x, heap-backed operands, junk destinations)
                     {"stream": "alias", "ops": ["sqrt", "cbrt"], "n": {"quick": 3000, "thorough": 40000}, "projections": []}],
         "projections": ["value", "repr", "flags", "err", "iter"],
         "oracle_tags": ["C11"],
-        "explanation": "Sqrt: correctness theorem for every operand incl. Inexact iff not exactly representable (C11_sqrt_correct_partial, C11_sqrt_inexact_iff; side condition proved necessary by C11_sqrt_sys). Cbrt: within one ulp and exact on perfect cubes whenever the call returns without error (C11_cbrt_within_ulp, C11_cbrt_exact). Also: integer-root oracles, specSqrt is the half-even nearest multiple stated on squares, the Cbrt ulp test, perfect-cube detection, loop termination, special operands. NOT proved: that Cbrt always returns without error (convergence within Precision+11 rounds). The executable models are correspondence-checked (incl. the Sqrt iterate and the last Cbrt iterate at observation points inside the real loops; C11_cbrt_obs_factor: the model's result is computed from exactly that iterate) and every generated case is judged by the proved oracles",
+        "explanation": "Sqrt: correctness theorem for every operand incl. Inexact iff not exactly representable (C11_sqrt_correct_partial, C11_sqrt_inexact_iff; side condition proved necessary by C11_sqrt_sys). Cbrt: within one ulp and exact on perfect cubes whenever the call returns without error (C11_cbrt_within_ulp, C11_cbrt_exact). Also: integer-root oracles, specSqrt is the half-even nearest multiple stated on squares, the Cbrt ulp test, perfect-cube detection, loop termination, special operands. Cbrt returns without error (C11_cbrt_returns: the scaling loops end, the polynomial estimate is within 3%, the rounded Newton map contracts, loop.done fires by round Precision+9 of the Precision+11 allowed, the re-check multiplications are exact) under the decidable side condition CbrtSide, every clause of which excludes a real failure of the Go code (C11_cbrt_sys, C11_cbrt_traps_needed; at Precision 1 the iteration really fails to converge for exponents below -40000: known finding). The executable models are correspondence-checked (incl. the Sqrt iterate and the last Cbrt iterate at observation points inside the real loops; C11_cbrt_obs_factor: the model's result is computed from exactly that iterate) and every generated case is judged by the proved oracles",
     },
     "C13": {
         "level": "proof",
@@ -212,8 +212,8 @@ PROPS["C08"] = {
 PROPS.update({
     "C05": {
         "level": "proof",
-        "lean_modules": ["ApdVerif.Props.C05"],
-        "theorem_prefixes": ["C05_"],
+        "lean_modules": ["ApdVerif.Props.C05", "ApdVerif.Props.GenTieImp", "ApdVerif.Props.C05Trans"],
+        "theorem_prefixes": ["C05_", "GenTieImp_"],
         "streams": [{"stream": "alias", "n": {"quick": 20000, "thorough": 400000}},
                     {"stream": "bigint", "n": {"quick": 8000, "thorough": 150000}}],
         "projections": ["alias", "alias-imp", "methalias", "bigint"],
@@ -222,8 +222,8 @@ PROPS.update({
     },
     "C06": {
         "level": "proof",
-        "lean_modules": ["ApdVerif.Props.C06"],
-        "theorem_prefixes": ["C06_"],
+        "lean_modules": ["ApdVerif.Props.C06", "ApdVerif.Props.GenTieImp", "ApdVerif.Props.C06Trans"],
+        "theorem_prefixes": ["C06_", "GenTieImp_"],
         "streams": [{"stream": "alias", "n": {"quick": 20000, "thorough": 400000}},
                     # every other stream, for the shared-state snapshots only (C06: constants and lookup tables unchanged by any call)
                     {"stream": "digits", "n": {"quick": 2000, "thorough": 40000}, "projections": []},
@@ -240,8 +240,8 @@ PROPS.update({
     },
     "C18": {
         "level": "other",
-        "lean_modules": ["ApdVerif.Props.C18", "ApdVerif.Props.C06"],
-        "theorem_prefixes": ["C18_", "C06_foot_", "C06_writes_ctxOp"],
+        "lean_modules": ["ApdVerif.Props.C18", "ApdVerif.Props.C06", "ApdVerif.Props.GenTieImp", "ApdVerif.Props.C06Trans", "ApdVerif.Props.C18All"],
+        "theorem_prefixes": ["C18_", "C06_foot_", "C06_writes_ctxOp", "C06_writes_transOp", "GenTieImp_"],
         "streams": [{"stream": "race", "n": {"quick": 400, "thorough": 6000}},
                     {"stream": "alias", "n": {"quick": 8000, "thorough": 100000}}],
         "projections": ["alias-imp"],
